@@ -461,7 +461,7 @@ func (fe *FnEnc) resolveModifiesAll(m string) map[string]string {
 	return out
 }
 
-var ghostCompSorts = map[string]string{"held": arrSort(sInt, sBool), "clock": sInt, "fault": sBool, "mutations": sInt, "blobReady": sBool, "truncated": sBool, "FLAGS": arrSort(sStr, sInt), "fswrites": sInt, "feeds": sInt, "MT": arrSort(sStr, sInt),
+var ghostCompSorts = map[string]string{"held": arrSort(sInt, sBool), "clock": sInt, "fault": sBool, "mutations": sInt, "blobReady": sBool, "truncated": sBool, "FLAGS": arrSort(sStr, sInt), "fswrites": sInt, "feeds": sInt, "lastEncodeTarget": sInt, "WROTE": arrSort(sStr, sInt), "MT": arrSort(sStr, sInt),
 	"HDR": arrSort(sInt, arrSort(sStr, sStr)), "M.ResponseWriter.status": arrSort(sInt, sInt), "M.BlobCreator.written": arrSort(sInt, sInt)}
 
 func (fe *FnEnc) safeResolve(env *Env, name string) (t types.Type) {
